@@ -460,3 +460,16 @@ m("c14-completion-error-to-ok", "C14", "nomt/src/io/linux.rs",
   "                    IoKindResult::Err => Err(std::io::Error::from_raw_os_error(io_uring_res.abs())),",
   "                    IoKindResult::Err => {\n                        eprintln!(\"io error {}\", io_uring_res);\n                        Ok(())\n                    }",
   "R6|")
+
+m("c14-short-io-classified-ok", "C14", "nomt/src/io/mod.rs",
+  "            _ if res == PAGE_SIZE as isize => IoKindResult::Ok,",
+  "            _ if res >= 0 => IoKindResult::Ok,",
+  "R6|io::IoKind::get_result")
+m("c14-failed-io-classified-ok", "C14", "nomt/src/io/mod.rs",
+  "                if matches!(os_err.kind(), std::io::ErrorKind::Interrupted) {\n                    IoKindResult::Retry\n                } else {\n                    IoKindResult::Err\n                }",
+  "                if matches!(os_err.kind(), std::io::ErrorKind::Interrupted) {\n                    IoKindResult::Retry\n                } else if matches!(os_err.kind(), std::io::ErrorKind::WouldBlock) {\n                    IoKindResult::Ok\n                } else {\n                    IoKindResult::Err\n                }",
+  "R6|io::IoKind::get_result")
+m("benign-classifier-cast-other-side", "C14", "nomt/src/io/mod.rs",
+  "            _ if res == PAGE_SIZE as isize => IoKindResult::Ok,",
+  "            _ if res as usize == PAGE_SIZE => IoKindResult::Ok,",
+  None)
